@@ -20,16 +20,23 @@ PID = "C05"
 MODULE = "checks.c05"
 
 
+BASE = [(0.0, 0.1, 1000, False), (0.0, 0.25, 1000, True), (1.0, 0.5, 1000, True), (0.0, 0.2, 100, False),
+        (0.5, 1.0, 1000, True), (0.25, 0.5, 1000, True), (0.1, 0.1, 1000, False)]
+
+
 def lattice(tier):
-    """(start, dt, K, with 3-step chains)"""
+    """(start, dt, K, with 3-step chains).  BASE is the claim of both tiers (every obligation must be decided); the
+    thorough tier adds the points below under a wall-time budget - an obligation the solver does not decide there
+    is reported as not explored"""
     if tier == "quick":
-        return [(0.0, 0.1, 1000, False), (0.0, 0.25, 1000, True), (1.0, 0.5, 1000, True), (0.0, 0.2, 100, False),
-                (0.5, 1.0, 1000, True), (0.25, 0.5, 1000, True), (0.1, 0.1, 1000, False)]
-    pts = []
+        return list(BASE)
+    pts = list(BASE)
     for start in (0.0, 1.0, 2.5, 1990.0, 0.25):
         for dt in (1.0, 0.5, 0.25, 0.2, 0.1, 0.05, 0.04, 0.025, 0.125):
             binary = dt in (1.0, 0.5, 0.25, 0.125)
-            pts.append((start, dt, 10000 if binary else 1000, binary or start == 0.0))
+            pt = (start, dt, 10000 if binary else 1000, binary or start == 0.0)
+            if (start, dt) not in [(b[0], b[1]) for b in BASE]:
+                pts.append(pt)
     return pts
 
 
@@ -307,7 +314,12 @@ def run(tier):
     rep = harness.Report(PID, tier, "model_checking", MODULE)
     rep.encoded(fpm.normalize, fpm.timerange, fpm.precision_and_scale, fpm.scale, Model.memoize, bptk.run_step, bptk.begin_session,
                 SdSimulation._SdSimulation__simulate)
-    tmo = 170 if tier == "quick" else 900
+    tmo = 170 if tier == "quick" else 400
+    import os
+    import time as _time
+    budget = float(os.environ.get("VERIF_BUDGET_S", "0") or 0)
+    deadline = (_time.time() + budget) if budget else None
+    base_pts = set((b[0], b[1]) for b in BASE)
     bad = validate_round(24 if tier == "quick" else 80, harness.seed())
     for b in bad:
         rep.inconcl("self-validation of the round(y,p) encoding failed: %s" % b)
@@ -335,8 +347,18 @@ def run(tier):
     ctx = fp.Ctx([fpm.__dict__])
     G, p, S, M = grid_terms(ctx, 0.0, 0.1, 1000)
     jobs.append((0.0, 0.1, 1000, "canary:memo-unnormalised", fp.script(ctx, ["(not (fp.eq %s %s))" % (fp.fp_bin("sub", G(1), 0.1).s, G(0).s)], ["k"])))
+    def solve_job(j):
+        required = (j[0], j[1]) in base_pts or j[3].startswith("canary")
+        t = tmo if not j[3].startswith("canary") else 120
+        if not required and deadline is not None:
+            left = deadline - _time.time()
+            if left < 20:
+                return ("skipped", "not started within the time budget")
+            t = max(20, min(300, int(left)))
+        return fp.solve(j[4], t)
+    jobs.sort(key=lambda j: 0 if ((j[0], j[1]) in base_pts or j[3].startswith("canary")) else 1)
     with ThreadPoolExecutor(max_workers=harness.nprocs()) as ex:
-        res = list(ex.map(lambda j: fp.solve(j[4], tmo if not j[3].startswith("canary") else 120), jobs))
+        res = list(ex.map(solve_job, jobs))
     samples, unsat = [], 0
     per_point = {}
     for (start, dt, K, name, smt), (r, out) in zip(jobs, res):
@@ -344,6 +366,8 @@ def run(tier):
             rep.canary(name.split(":")[1], r == "sat")
             continue
         if name == "witness":
+            if r == "skipped":
+                continue
             if r != "sat":
                 rep.inconcl("witness (start=%s, dt=%s) is %s: assumptions unsatisfiable or solver failure" % (start, dt, r))
             continue
@@ -361,7 +385,10 @@ def run(tier):
             rep.candidate(sig, {"start": start, "dt": dt, "k": int(k), "name": name},
                           "%s fails at start=%s dt=%s k=%d (t=%r)" % (name, start, dt, int(k), G_py(start, dt, int(k))))
         else:
-            rep.inconcl("%s (start=%s dt=%s K=%d): solver %s %s" % (name, start, dt, K, r, out[-300:] if r == "error" else ""))
+            text = "%s (start=%s dt=%s K=%d): solver %s %s" % (name, start, dt, K, r, out[-300:] if r == "error" else "")
+            if (start, dt) not in base_pts and r in ("skipped", "unknown", "timeout"):
+                text = harness.SKIP_MARK + ": " + text
+            rep.inconcl(text)
         if len(samples) < 6:
             samples.append({"obligation": name, "start": start, "dt": dt, "K": K, "verdict": r})
     # z3 cross-check of one unsat obligation (second solver)
